@@ -207,7 +207,12 @@ def binding_selfcheck(ctx, cases):
         if r["ev"] == "Prune" and r["st"].get("changes"):
             r["st"]["changes"] = r["st"]["changes"][1:]
             return True
-    for name, f in (("task.spawn+1h", corrupt_task), ("ctr.lastLane-1", corrupt_ctr), ("Prune: one more change removed", corrupt_gone)):
+    kinds = [("task.spawn+1h", corrupt_task), ("ctr.lastLane-1", corrupt_ctr), ("Prune: one more change removed", corrupt_gone)]
+    if ctx.quick:   # one corruption per quick run (rotating with the seed), all three in the thorough tier
+        kinds = kinds[ctx.seed % 3:] + kinds[:ctx.seed % 3]
+    for name, f in kinds:
+        if ctx.quick and results:
+            break
         rs = copy.deepcopy(rows)
         at = None
         for i in range(len(rs) // 2, len(rs)):
@@ -232,11 +237,11 @@ def run(ctx, prop):
     quick = ctx.quick
     # ---- 1. design
     if prop == "C05":
-        cfgs = [("StateStore_mc.cfg", 1500)] if quick else [("StateStore_mc.cfg", 1500), ("StateStore_mc_thorough.cfg", 2400)]
-        need = ["NewChange", "NewTask", "AddTask", "NewLane", "JoinLane", "SetStatus", "Prune", "SaveReload", "Tick"]
+        cfgs = [("StateStore_mc.cfg", 1500)] if quick else [("StateStore_mc_thorough.cfg", 2400)]
+        need = ["Do" + a for a in ("NewChange", "NewTask", "AddTask", "NewLane", "JoinLane", "SetStatus", "Prune", "SaveReload", "Tick")]
     else:
-        cfgs = [("StateStore_mc_prune.cfg", 1500)] if quick else [("StateStore_mc_prune.cfg", 1500), ("StateStore_mc_prune_thorough.cfg", 2400)]
-        need = ["NewChange", "NewTask", "AddTask", "SetStatus", "Prune", "Tick", "Register", "ChangeSet"]
+        cfgs = [("StateStore_mc_prune.cfg", 1500)] if quick else [("StateStore_mc_prune_thorough2.cfg", 2400), ("StateStore_mc_prune_thorough.cfg", 2400)]
+        need = ["Do" + a for a in ("NewChange", "NewTask", "AddTask", "SetStatus", "Prune", "Tick", "Register", "ChangeSet")]
     ctx.log("design: TLC on", [c for c, _ in cfgs])
     states, transitions, mc_summary, cov = design(ctx, cfgs, need)
     ctx.log("design done: %d distinct / %d generated" % (states, transitions))
@@ -244,9 +249,9 @@ def run(ctx, prop):
     # ---- 2. conformance: real executions
     tb = goharness.ext_test_build(ctx, "statestore")
     if prop == "C05":
-        plan = [("random", ctx.pick(90, 2400), ctx.pick(40, 60)), ("prune", ctx.pick(20, 400), 30)]
+        plan = [("random", ctx.pick(36, 1500), ctx.pick(35, 60)), ("prune", ctx.pick(8, 300), 30)]
     else:
-        plan = [("prune", ctx.pick(110, 3000), ctx.pick(30, 40)), ("random", ctx.pick(20, 300), 40)]
+        plan = [("prune", ctx.pick(45, 2000), ctx.pick(30, 40)), ("random", ctx.pick(6, 200), 40)]
     nchunks = ctx.pick(6, 14)
     all_cases, jobs = [], []
     tdir = ctx.subdir("traces")
